@@ -654,7 +654,8 @@ impl<G: Visitable> Visitable for Acyclic<G> {
 }
 
 macro_rules! impl_graph_traits {
-    ($graph_type:ident) => {
+    // `$renumbers`: whether removing a node moves the last node into the freed index
+    ($graph_type:ident, $renumbers:expr) => {
         // Remove edge and node methods (not available through traits)
         impl<N, E, Ix: IndexType> Acyclic<$graph_type<N, E, Ix>> {
             /// Remove an edge and return its edge weight, or None if it didn't exist.
@@ -679,7 +680,15 @@ macro_rules! impl_graph_traits {
                 // Nothing to do - and nothing to disturb - if `n` is not a node.
                 self.graph.node_weight(n)?;
                 self.order_map.remove_node(n, &self.graph);
-                self.graph.remove_node(n)
+                let weight = self.graph.remove_node(n);
+                if $renumbers {
+                    // `Graph::remove_node` moved the last node into the freed index.
+                    let moved = NodeIndex::new(self.graph.node_count());
+                    if moved != n {
+                        self.order_map.rename_node(moved, n, &self.graph);
+                    }
+                }
+                weight
             }
         }
 
@@ -763,9 +772,9 @@ macro_rules! impl_graph_traits {
     };
 }
 
-impl_graph_traits!(DiGraph);
+impl_graph_traits!(DiGraph, true);
 #[cfg(feature = "stable_graph")]
-impl_graph_traits!(StableDiGraph);
+impl_graph_traits!(StableDiGraph, false);
 
 #[cfg(test)]
 mod tests {
